@@ -71,9 +71,15 @@ WellFormed(c) ==
                          /\ c.ep = (IF c.type = "cert" THEN "add-chain" ELSE "add-pre-chain"))
     /\ (c.body \in {"emptyChain", "badJSON"} => c.length = 2 /\ ~c.rootSent /\ ~c.preissuer)
 
-Cases == {c \in [body : Bodies, variant : UNION {Variants[b] : b \in Bodies}, ep : Endpoints,
-                 root : RootNames, length : Lengths, rootSent : BOOLEAN, pos : Positions,
-                 type : Types, preissuer : BOOLEAN, eku : Ekus, order : Orders] : WellFormed(c)}
+\* (built as a union of small products: TLC filters a few thousand candidates)
+OkCases == {c \in [body : {"ok"}, variant : {"-"}, ep : Endpoints, root : RootNames, length : Lengths,
+                    rootSent : BOOLEAN, pos : Positions, type : Types, preissuer : BOOLEAN,
+                    eku : Ekus, order : Orders] : WellFormed(c)}
+BadBodyCases ==
+    UNION {{c \in [body : {b}, variant : Variants[b], ep : Endpoints, root : RootNames, length : Lengths,
+                   rootSent : BOOLEAN, pos : {"inside"}, type : Types, preissuer : BOOLEAN,
+                   eku : {"serverAuth"}, order : {"ok"}] : WellFormed(c)} : b \in Bodies \ {"ok"}}
+Cases == OkCases \cup BadBodyCases
 
 \* length of the verified chain: the submitted certificates plus the root
 FullLen(c) == c.length + (IF c.rootSent THEN 0 ELSE 1)
